@@ -14,10 +14,13 @@ RULE = ("Cases: (trad) traditional strings rendered from generated unit parts wi
         "letter case, inner whitespace, decimal point/comma in the smallest unit, optional "
         "'s'; (iso) ISO 8601 strings incl. 0Y/0M; (num) numbers/None for time_period; "
         "(timestr/approx) round trips of integers dense at unit boundaries and of decimal "
-        "fractions with 0..6 digits; (bad) grammar-generated malformed strings. Thorough adds "
+        "fractions with 0..6 digits; (bad) grammar-generated malformed strings; (soup) strings glued "
+        "from the tokens of both notations (numbers, unit letters, P/T/Y/M, white space, signs, stray "
+        "marks) by mutating a nearly valid skeleton, accept/reject and value compared with a hand-written "
+        "recursive-descent reading of the documented grammar. Thorough adds "
         "every integer 0..10^6 for the timestr and timestr_approx round trips. "
         "Non-trivial = string with >=2 units or a fraction, a float round trip, a value "
-        "within 2 of a unit boundary, or a malformed string; distinct by descriptor.")
+        "within 2 of a unit boundary, a malformed string or a token-soup string; distinct by descriptor.")
 ASSUMPTIONS = [
     "expected values computed exactly in fractions.Fraction and compared with 1e-9 relative tolerance",
     "timestr_approx: tolerance = documented step of the magnitude bracket of the input "
@@ -233,9 +236,182 @@ def bad_cases(draw):
     return case
 
 
+# ---------------------------------------------------------------- token soup (differential)
+# Strings glued from the tokens of both notations in any order.  The reference below is a hand-written
+# recursive-descent reading of docs/utils.rst (no regular expressions): it says 'ok' with a value,
+# 'bad', or 'either' where the documentation does not decide (a 'T' designator with nothing after it).
+_soup_num = st.one_of(
+    st.integers(0, 120).map(str), st.sampled_from(['0', '00', '007', '1', '60', '3600']),
+    st.tuples(st.integers(0, 99), st.sampled_from('.,'), st.sampled_from(['0', '5', '25', '000', '999999'])
+              ).map(lambda t: f"{t[0]}{t[1]}{t[2]}"))
+_soup_tok = st.one_of(
+    _soup_num, _soup_num, st.sampled_from('dhms'), st.sampled_from('dhmsDHMS'), st.sampled_from('PTPTYM'),
+    st.sampled_from([' ', ' ', '\t', '\n', '  ']), st.sampled_from(['-', '+', '.', ',', 'w', ':', 'x']))
+
+
+def _soup_shape(draw):
+    """a nearly valid skeleton, so that a large part of the soup is accepted or fails late"""
+    if draw(st.booleans()):
+        units = [u for u in 'dhms' if draw(st.booleans())]
+        toks = []
+        for u in units:
+            toks += [draw(_soup_num), draw(st.sampled_from(['', '', ' '])), draw(st.sampled_from([u, u.upper()])),
+                     draw(st.sampled_from(['', '', ' ']))]
+        return [t for t in toks if t]
+    toks = ['P']
+    for u in 'YMD':
+        if draw(st.integers(0, 2)) == 0:
+            toks += [draw(st.sampled_from(['0', '00', '1'])) if u != 'D' else draw(_soup_num), u]
+    if draw(st.booleans()):
+        toks.append('T')
+        for u in 'HMS':
+            if draw(st.booleans()):
+                toks += [draw(_soup_num), u]
+    return toks
+
+
+@st.composite
+def soup_cases(draw):
+    toks = _soup_shape(draw) if draw(st.integers(0, 3)) else []
+    for _ in range(draw(st.integers(0, 3))):       # mutate: insert / delete / replace / swap
+        op = draw(st.integers(0, 3))
+        if op == 0 or not toks:
+            toks.insert(draw(st.integers(0, len(toks))), draw(_soup_tok))
+        elif op == 1:
+            del toks[draw(st.integers(0, len(toks) - 1))]
+        elif op == 2:
+            toks[draw(st.integers(0, len(toks) - 1))] = draw(_soup_tok)
+        elif len(toks) >= 2:
+            i = draw(st.integers(0, len(toks) - 2))
+            toks[i], toks[i + 1] = toks[i + 1], toks[i]
+    return {'k': 'soup', 's': ''.join(toks)}
+
+
+_WS = ' \t\n\r\f\v'
+_DIG = '0123456789'
+
+
+def _scan_number(s, i):
+    """-> (Fraction, has_fraction, next index) or None"""
+    j = i
+    while j < len(s) and s[j] in _DIG:
+        j += 1
+    if j == i:
+        return None
+    ip = s[i:j]
+    if j < len(s) and s[j] in '.,':
+        k = j + 1
+        while k < len(s) and s[k] in _DIG:
+            k += 1
+        if k == j + 1:
+            return None         # a decimal mark must be followed by digits
+        fp = s[j + 1:k]
+        return Fraction(int(ip)) + Fraction(int(fp), 10 ** len(fp)), True, k
+    return Fraction(int(ip)), False, j
+
+
+def _skip_ws(s, i):
+    while i < len(s) and s[i] in _WS:
+        i += 1
+    return i
+
+
+def _finish(parts):
+    """parts = [(scale or None, value, has_fraction)] in the order written"""
+    if not parts:
+        return ('bad', None)
+    if any(frac for _, _, frac in parts[:-1]):
+        return ('bad', None)
+    total = Fraction(0)
+    for scale, value, _ in parts:
+        if scale is None:
+            if value != 0:
+                return ('bad', None)
+        else:
+            total += value * scale
+    return ('ok', total)
+
+
+def ref_duration(s):
+    """the documented grammar: -> ('ok', Fraction) | ('bad', None) | ('either', Fraction)"""
+    trad = _ref_trad(s)
+    if trad[0] != 'bad':
+        return trad
+    return _ref_iso(s)
+
+
+def _ref_trad(s):
+    i = _skip_ws(s, 0)
+    parts = []
+    rank = -1
+    while i < len(s):
+        num = _scan_number(s, i)
+        if num is None:
+            return ('bad', None)
+        value, frac, i = num
+        i = _skip_ws(s, i)
+        if i < len(s) and s[i] in 'dhmsDHMS':
+            r = 'dhms'.index(s[i].lower())
+            i += 1
+        elif i == len(s):
+            r = 3               # only the seconds may go without the unit symbol, i.e. at the very end
+        else:
+            return ('bad', None)
+        if r <= rank:
+            return ('bad', None)
+        rank = r
+        parts.append((SCALE[r], value, frac))
+        i = _skip_ws(s, i)
+    return _finish(parts)
+
+
+def _ref_iso(s):
+    i = _skip_ws(s, 0)
+    end = len(s)
+    while end > i and s[end - 1] in _WS:
+        end -= 1
+    body = s[i:end]
+    if not body.startswith('P'):
+        return ('bad', None)
+    i = 1
+    parts = []
+    dangling_t = False
+    for section, designators in (('date', 'YMD'), ('time', 'HMS')):
+        if section == 'time':
+            if i < len(body) and body[i] == 'T':
+                i += 1
+                dangling_t = True
+            else:
+                break
+        rank = -1
+        while i < len(body) and body[i] != 'T':
+            num = _scan_number(body, i)
+            if num is None:
+                return ('bad', None)
+            value, frac, i = num
+            if i >= len(body) or body[i] not in designators:
+                return ('bad', None)
+            r = designators.index(body[i])
+            i += 1
+            if r <= rank:
+                return ('bad', None)
+            rank = r
+            scale = {'D': 86400, 'H': 3600, 'S': 1}.get(designators[r])
+            if section == 'time' and designators[r] == 'M':
+                scale = 60
+            parts.append((scale, value, frac))
+            dangling_t = False
+    if i != len(body):
+        return ('bad', None)
+    verdict = _finish(parts)
+    if dangling_t and verdict[0] == 'ok':
+        return ('either', verdict[1])
+    return verdict
+
+
 def strategy(tier):
     return st.one_of(trad_cases(), iso_cases(), num_cases, timestr_cases, approx_cases,
-                     bad_cases(), trad_cases(), iso_cases())
+                     bad_cases(), trad_cases(), iso_cases(), soup_cases(), soup_cases())
 
 
 def fixed_bad():
@@ -388,6 +564,26 @@ def execute(case):
                 res.fail('C19.approx_step', f"convert(timestr_approx({x!r}) = {text!r}) = {back!r}")
         res.nontrivial = case['float'] or near_boundary(ip) or ip >= 36000
         res.outcome = {'x': x, 'text': text}
+    elif k == 'soup':
+        text = case['s']
+        verdict, value = ref_duration(text)
+        for func in (utils.convert, utils.time_period):
+            try:
+                got = func(text)
+            except ValueError:
+                if verdict == 'ok':
+                    res.fail('C19.valid_string_rejected', f"{func.__name__}({text!r}) raised ValueError, "
+                             f"documented grammar gives {float(value)!r}")
+            except Exception as err:
+                res.fail('C19.malformed_wrong_exception', f"{func.__name__}({text!r}) raised {err!r}")
+            else:
+                if verdict == 'bad':
+                    res.fail('C19.malformed_accepted', f"{func.__name__}({text!r}) -> {got!r} (token soup)")
+                elif not isinstance(got, float) or not close(got, value):
+                    res.fail('C19.string_value', f"{func.__name__}({text!r}) = {got!r}, expected {float(value)!r}")
+        res.classes.append('soup/' + verdict)
+        res.nontrivial = True
+        res.outcome = {'text': text, 'reference': verdict, 'seconds': None if value is None else float(value)}
     elif k == 'bad':
         text = case['s']
         for func in (utils.convert, utils.time_period):
